@@ -187,7 +187,7 @@ static std::string handle(const std::vector<std::string>& a) {
     std::string sys = a[2] == "u" ? "file://" + path : path;
     std::string tree, exc;
     try {
-        if (a[1] == "x") {
+        if (a[1][0] == 'x') {
             XParser p;
             QuietSax h;
             p.setErrorHandler(&h);
@@ -199,7 +199,7 @@ static std::string handle(const std::vector<std::string>& a) {
             catch (const DOMException& e) { exc = " X:DOMException:" + std::to_string((int)e.code); }
             catch (const SAXException& e) { exc = " X:SAXException"; }
             if (exc.empty()) tree = dumpDoc(p.getDocument());
-        } else if (a[1] == "d") {
+        } else if (a[1][0] == 'd') {
             // XIncludeDOMDocumentProcessor::doXIncludeDOMProcess on a document parsed without XInclude
             XParser p;
             QuietSax h;
